@@ -92,7 +92,7 @@ SIZE_VALUES = {0, 1, 512, 1023, 1024, 1025, 1536, 2047, 2048, 1048575, 1048576, 
 def size_run(maxlen):
     d = vlib.scratch("size-")
     try:
-        consts = dict(Toks={"0", "1", "5", "9", "B", "K", "M", "G", "T", "k", "x", "-", "SP", "B20"}, MaxLen=maxlen,
+        consts = dict(Toks={"0", "1", "5", "9", "B", "K", "M", "G", "T", "k", "x", "-", "SP", "B20", "FW1", "AR3"}, MaxLen=maxlen,
                       Values=SIZE_VALUES, CaseFile=os.path.join(d, "cases.ndjson"), ResultFile=os.path.join(d, "res.ndjson"))
         ncases, r = _gen_and_run("ByteSizeGen", "ByteSizeJudge", consts, "bytesize", d)
         m = re.search(r'<<\s*"SIZE-RESULT",\s*(\d+),\s*(\d+),\s*(\d+),(.*)>>\s*\n', r["out"], re.S)
